@@ -130,3 +130,91 @@ def stale_accumulator(prog, fn):
                     continue
                 seen.add((did, id(outer)))
                 yield d, outer, inner, uses_after[0]
+
+
+def _sentinel_class(e):
+    """'plus' (+infinity, numeric_limits::max, DBL_MAX, HUGE_VAL), 'minus' (their negation, lowest), 'tiny'
+    (numeric_limits::min / epsilon: smallest POSITIVE value), or None for anything else."""
+    e = strip(e)
+    neg = False
+    while e.get("k") == "UnaryOperator" and e.get("op") in ("-", "+"):
+        if e.get("op") == "-":
+            neg = not neg
+        e = strip(e["c"][0])
+    if e.get("k") == "DeclRefExpr" and isinstance(e.get("ref"), dict) and e["ref"].get("dk") == "Var":
+        return ("ref", e["ref"].get("did"), neg)
+    txt = render(e).replace(" ", "")
+    cls = None
+    if re.search(r"numeric_limits<[\w ]+>::infinity\(\)|HUGE_VAL|\bINFINITY\b", txt):
+        cls = "plus"
+    elif re.search(r"numeric_limits<[\w ]+>::max\(\)|\b(DBL|FLT)_MAX\b", txt):
+        cls = "plus"
+    elif re.search(r"numeric_limits<[\w ]+>::lowest\(\)", txt):
+        cls = "minus"
+    elif re.search(r"numeric_limits<[\w ]+>::(min|epsilon|denorm_min)\(\)|\b(DBL|FLT)_MIN\b", txt):
+        cls = "tiny"
+    if cls is None:
+        return None
+    if neg:
+        cls = {"plus": "minus", "minus": "plus", "tiny": "tiny"}[cls]
+    return cls
+
+
+def running_extrema(prog, fn):
+    """Accumulators updated as 'if (e < X) X = e' / 'X = std::min(X, e)' (min) or the max forms, together with the
+    sentinel they are initialised with earlier in the same function.  Yields (accumulator text, 'min'|'max',
+    sentinel class or None, init node, update node)."""
+    if not isinstance(fn.get("body"), dict):
+        return
+    fi = prog.index(fn)
+    accs = []
+    for n in walk(fn["body"]):
+        if n.get("k") == "IfStmt" and not isinstance(n.get("else"), dict):
+            c = strip(n["cond"])
+            th = n["then"]
+            stmts = th.get("c", []) if th.get("k") == "CompoundStmt" else [th]
+            if c.get("k") == "BinaryOperator" and c.get("op") in ("<", ">", "<=", ">=") and len(stmts) == 1:
+                a = strip(stmts[0])
+                if a.get("k") == "BinaryOperator" and a.get("op") == "=":
+                    X, e = render(a["c"][0]), render(a["c"][1])
+                    l, r = render(c["c"][0]), render(c["c"][1])
+                    if {l, r} == {X, e} and X != e:
+                        less = c["op"].startswith("<")
+                        kind = "min" if ((l == e) == less) else "max"
+                        accs.append((X, kind, a, strip(a["c"][0])))
+        if n.get("k") == "BinaryOperator" and n.get("op") == "=":
+            rhs = strip(n["c"][1])
+            if rhs.get("k") == "CallExpr" and rhs.get("callee", "").split("<")[0] in ("std::min", "std::max"):
+                X = render(n["c"][0])
+                if X in [render(a) for a in call_args(rhs)]:
+                    accs.append((X, rhs["callee"].split("<")[0][5:], n, strip(n["c"][0])))
+    seen = set()
+    local_consts = {}
+    for n in walk(fn["body"]):
+        if n.get("k") == "Var" and isinstance(n.get("init"), dict):
+            local_consts[n.get("did")] = n["init"]
+    for X, kind, upd, lhs in accs:
+        if (X, kind) in seen:
+            continue
+        seen.add((X, kind))
+        init = None
+        for n in fi.nodes:
+            if fi.order[id(n)] >= fi.order[id(upd)]:
+                break
+            if n.get("k") == "BinaryOperator" and n.get("op") == "=" and render(n["c"][0]) == X and n is not upd:
+                init = n["c"][1]
+                node = n
+            if n.get("k") == "Var" and lhs.get("k") == "DeclRefExpr" and n.get("did") == lhs["ref"].get("did") and isinstance(n.get("init"), dict):
+                init = n["init"]
+                node = n
+        if init is None:
+            continue
+        cls = _sentinel_class(init)
+        if isinstance(cls, tuple):      # a named constant: one level of indirection
+            _, did, neg = cls
+            cls = _sentinel_class(local_consts[did]) if did in local_consts else None
+            if isinstance(cls, tuple):
+                cls = None
+            if cls and neg:
+                cls = {"plus": "minus", "minus": "plus", "tiny": "tiny"}[cls]
+        yield X, kind, cls, node, upd
